@@ -69,6 +69,7 @@ pub struct CheckResult {
 pub fn run_check(prop_id: &str, tier: Tier, seed: u64, part_out: Option<&Path>, only_stage: Option<&str>) -> CheckResult {
     let start = Instant::now();
     install_panic_hook();
+    set_thorough(tier == Tier::Thorough);
     let Some(p) = crate::props::property(prop_id, tier) else {
         eprintln!("unknown property {prop_id}");
         return CheckResult { exit: 2 };
@@ -164,6 +165,9 @@ pub fn run_check(prop_id: &str, tier: Tier, seed: u64, part_out: Option<&Path>, 
                 let path = write_replay(prop_id, f);
                 eprintln!("failure in stage {}: {}\n  case: {}", f.stage, f.message, f.rendered);
                 violations.push((f.message.clone(), path));
+            }
+            for i in &stats.inconclusive {
+                inconclusive.push(format!("stage {}: {}", st.name(), i));
             }
             if let Some(t) = &stats.timed_out {
                 inconclusive.push(format!("stage {} timed out on case {}", st.name(), t));
